@@ -80,7 +80,7 @@ func init() {
 		Run:      func(sc any, tr *kit.Trace) *kit.Result { return runC18(sc.(*C18Scenario), tr) },
 		Shrink:   shrinkC18,
 		PerChunk: 40,
-		Quick:    1600,
+		Quick:    6400,
 		Thorough: 120000,
 	})
 }
